@@ -67,6 +67,14 @@ CHECKS = {
              "judged against flag, key class/type table, allowed list and the advertised list of that configuration.",
         note="Exhaustive over the stated grid (no sampling); the always-authenticate clause is not covered by this check yet; cells that fail for an unrelated "
              "reason (e.g. single DES needs OpenSSL's legacy provider on this image) are not judged."),
+    "C06": dict(
+        category="model_checking", design_ref="DESIGN.md 3/C06",
+        technique="exhaustive enumeration of (storing path x object kind x follow-up history x umask) scenarios on the real library; raw token directory judged by an independent decoder/scanner (own format parser, hashlib PBE, Botan AES)",
+        text="Every storing path for byte-string attributes of private objects is executed for every listed object kind and follow-up history; afterwards "
+             "the raw directory must contain no 8-byte window of any private value, the decoder must unwrap the same master key from both PIN blobs and "
+             "decrypt every attribute to exactly the API's (and the harness's own stored) value, IVs must be pairwise distinct, a wrong PIN must open "
+             "nothing and no mode bit may lie outside objectstore.umask.",
+        note="File store; trusted base: py/p11mc/storefmt.py, refsh (Botan), hashlib; values shorter than 8 bytes are only covered by the decoder comparison."),
 }
 
 NOT_YET = "check under construction in this session; not claimed yet (DESIGN.md Appendix D gives the build order)"
@@ -92,10 +100,10 @@ def main():
         })
     m = {
         "version": 1,
-        "setup_cmd": "python3 tools/build_sut.py ossl-asan ossl-plain",
+        "setup_cmd": "python3 tools/build_sut.py ossl-asan ossl-plain ref",
         "hooks": {"guard": "SOFTHSM_VERIF", "enable": "tools/build_sut.py passes -DSOFTHSM_VERIF to every variant it compiles from /repo's working tree",
                   "baseline_off_cmd": "cmake --build /repo/_build && ctest --test-dir /repo/_build -j8 --timeout 900",
-                  "source_commits": [], "fix_commits": ["6bd3dce", "e87af21", "bea9994", "588c9b7", "ceb5015", "084c459"], "add_only": True},
+                  "source_commits": [], "fix_commits": ["6bd3dce", "e87af21", "bea9994", "588c9b7", "ceb5015", "fd7cd14", "084c459"], "add_only": True},
         "engines": [
             {"name": "p11sh", "path": "engine/p11sh", "serves_properties": sorted(CHECKS), "kind_free_text": "PKCS#11 shell linked statically against the SUT; SNAP/BACK process snapshots; guard pages + canaries around every buffer"},
             {"name": "p11mc", "path": "py/p11mc", "serves_properties": sorted(CHECKS), "kind_free_text": "explicit-state explorer (level-synchronous BFS with replay-to-state, unmerged DFS), reference models, evidence/findings glue"},
